@@ -30,7 +30,10 @@ impl IppAttributes {
     {'op': 'fn', 'path': 'IppAttribute::name', 'ret': 'r', 'spec': '    ensures r@ == self.sname(),'},
     {'op': 'fn', 'path': 'IppAttribute::value', 'ret': 'r', 'spec': '    ensures *r == self.sval(),'},
     {'op': 'fn', 'path': 'IppAttribute::into_value', 'ret': 'r', 'spec': '    ensures r == self.sval(),'},
-    {'op': 'fn', 'path': 'IppAttribute::to_bytes', 'ret': 'r', 'attrs': ['#[verifier::external_body]']},
+    {'op': 'fn', 'path': 'IppAttribute::to_bytes', 'ret': 'r',
+     'spec': '''    requires size_ok(aval(self.sval())),
+    ensures (wf16(aval(self.sval())) && utf8(self.sname()).len() <= 0xffff) ==>
+        buf_seq(&r) == spec_attr_enc(self.sname(), aval(self.sval())),'''},
     {'op': 'fn', 'path': 'IppAttributeGroup::new', 'ret': 'r', 'spec': '    ensures r.stag() == tag, r.sattrs() == Map::<String, IppAttribute>::empty(),'},
     {'op': 'fn', 'path': 'IppAttributeGroup::tag', 'ret': 'r', 'spec': '    ensures r == self.stag(),'},
     {'op': 'fn', 'path': 'IppAttributeGroup::attributes', 'ret': 'r', 'spec': '    ensures r@ == self.sattrs(),'},
